@@ -230,7 +230,11 @@ func (g *globalCounterManager) doAcquire() {
 
 		for _, r := range acquireResult.Status.Results {
 			rs := r
-			if counter := g.counterMap[r.FlowControl]; counter != nil {
+			// counters are added and stopped concurrently (schema sync, cluster removal)
+			g.lock.RLock()
+			counter := g.counterMap[r.FlowControl]
+			g.lock.RUnlock()
+			if counter != nil {
 				acceptInfo := &AcquireResult{
 					request:     limitRequestsMap[rs.FlowControl],
 					result:      &rs,
